@@ -214,12 +214,20 @@ Ltac arr_ast_tac :=
            set (u := wrap k2 n) in *; cbn in Hu;
            rewrite (wrap_id' k u) by (cbv [lo hi signed bits size]; cbn; lia)
          end;
-  destruct (Z.leb_spec 0 n); cbn [andb]; try reflexivity;
-  (* the index is not negative from here on: the remaining casts of it are the identity *)
+  destruct (Z.leb_spec 0 n); cbn [andb negb orb];
+  (* where the index is not negative the remaining casts of it are the identity *)
   repeat match goal with
          | |- context [wrap ?k n] => rewrite (wrap_id' k n) by (cbv [lo hi signed bits size]; cbn; lia)
          end;
+  (* comparisons the sign of the index decides (the checks may be split, negated, or written the other way round) *)
+  repeat match goal with
+         | |- context [?a <? ?b] => first [rewrite (proj2 (Z.ltb_lt a b)) by lia | rewrite (proj2 (Z.ltb_ge a b)) by lia]
+         | |- context [?a <=? ?b] => first [rewrite (proj2 (Z.leb_le a b)) by lia | rewrite (proj2 (Z.leb_gt a b)) by lia]
+         end;
+  cbn [andb negb orb];
   try reflexivity;
-  match goal with
-  | |- context [?a <? ?b] => destruct (a <? b); reflexivity
-  end.
+  repeat match goal with
+         | |- context [?a <? ?b] => destruct (Z.ltb_spec a b)
+         | |- context [?a <=? ?b] => destruct (Z.leb_spec a b)
+         end;
+  cbn [andb negb orb]; first [reflexivity | exfalso; lia].
